@@ -4,6 +4,7 @@ package main
 // construction; the remainder is free random. All random choices come from one PRNG.
 
 import (
+	"strings"
 	"fmt"
 	"math/rand"
 )
@@ -33,6 +34,8 @@ type genOpts struct {
 type wb struct {
 	r *rand.Rand
 	w *AWorld
+	// attFirst: cite the tokens returned by attestations() before the token they stand next to
+	attFirst bool
 }
 
 func (b *wb) addPrincipal(kind string, wraps int) int {
@@ -125,7 +128,7 @@ func (b *wb) randNb(n int) [][2]int {
 // genWorld builds a world around one main chain owner -> ... -> invoker, then decorates it.
 func genWorld(r *rand.Rand, now int, o genOpts, class *string) *AWorld {
 	w := &AWorld{Now: now, CanIssue: "self", Revoked: []int{}, Resolver: []int{}, ResolveKey: [][2]int{}}
-	b := &wb{r, w}
+	b := &wb{r: r, w: w}
 	// principals: 0 = service
 	nEd := 4 + r.Intn(3)
 	for i := 0; i < nEd; i++ {
@@ -146,7 +149,7 @@ func genWorld(r *rand.Rand, now int, o genOpts, class *string) *AWorld {
 	if r.Intn(6) == 0 { // abilities of three segments: `ns/*` still covers them
 		can = ns + "/" + []string{"blob", "index"}[r.Intn(2)] + "/" + verb
 	}
-	w.Desc = ADesc{Can: can, With: []string{"any", "did"}[r.Intn(2)], Derives: "default"}
+	w.Desc = ADesc{Can: can, With: []string{"any", "did", "libdid"}[r.Intn(3)], Derives: "default"}
 	if o.caveats {
 		w.Desc.Derives = []string{"default", "eq", "le"}[r.Intn(3)]
 	}
@@ -253,6 +256,10 @@ func genWorld(r *rand.Rand, now int, o genOpts, class *string) *AWorld {
 		if prev >= 0 {
 			t.Prfs = []int{prev}
 			t.Prfs = append(t.Prfs, pendingAtt...)
+			if b.attFirst {
+				t.Prfs = append(append([]int{}, pendingAtt...), prev)
+				b.attFirst = false
+			}
 			pendingAtt = nil
 			t.Inline = make([]bool, len(t.Prfs))
 			for k := range t.Inline {
@@ -290,6 +297,10 @@ func genWorld(r *rand.Rand, now int, o genOpts, class *string) *AWorld {
 	if prev >= 0 {
 		inv.Prfs = []int{prev}
 		inv.Prfs = append(inv.Prfs, pendingAtt...)
+		if b.attFirst {
+			inv.Prfs = append(append([]int{}, pendingAtt...), prev)
+			b.attFirst = false
+		}
 		inv.Inline = make([]bool, len(inv.Prfs))
 		for k := range inv.Inline {
 			inv.Inline[k] = true
@@ -315,7 +326,7 @@ func (b *wb) attestations(id int, holder int, force int) []int {
 		return b.addToken(AToken{Iss: iss, Aud: aud, Caps: []ACap{{Can: "ucan/attest", With: with, Nb: nb}}, Prfs: prfs, Exp: b.exp(), Signer: signer, Intact: true, AlgOk: true})
 	}
 	var out []int
-	variant := r.Intn(15)
+	variant := r.Intn(16)
 	if force > 0 {
 		variant = force
 	}
@@ -330,6 +341,12 @@ func (b *wb) attestations(id int, holder int, force int) []int {
 		a := mk(w.Authority, w.AuthorityKey, holder, authDid, [][2]int{{0, id}}, nil)
 		w.Tokens[a].Caps = append([]ACap{{Can: "other/thing", With: authDid, Nb: [][2]int{}}}, w.Tokens[a].Caps...)
 		out = append(out, a)
+	case 14: // no attestation for this token, but a properly attested delegation of ANOTHER account next to it,
+		// listed first: its attestation must not vouch for this one
+		acct2 := b.addPrincipal("mailto", -1)
+		d1 := b.addToken(AToken{Iss: acct2, Aud: holder, Caps: []ACap{{Can: "other/thing", With: fmt.Sprintf("@%d", acct2), Nb: [][2]int{}}}, Exp: b.exp(), Signer: -1, Intact: true, AlgOk: false})
+		out = append(out, d1, mk(w.Authority, w.AuthorityKey, holder, authDid, [][2]int{{0, d1}}, nil))
+		b.attFirst = true
 	case 13: // the authority's DID in other letter case: another string, not the authority
 		out = append(out, mk(w.Authority, w.AuthorityKey, holder, authDid+"^", [][2]int{{0, id}}, nil))
 	case 0: // none
@@ -374,13 +391,13 @@ func (b *wb) attestations(id int, holder int, force int) []int {
 
 const specialBase = 1000 // caveat values 1000.. are written as empty list, empty map, empty string, false, {a:1}, {a:1,b:2}, {b:2}
 
-var defectKinds = []string{"nearmiss", "twincap", "tamper-wrapped", "none", "wrongkey", "tamper", "aud", "resource", "ability", "nonowner", "expired", "tooearly", "algcode", "revoke", "missing", "policy", "decoys", "permute", "nbf-ok", "dup", "parsefail", "deadend"}
+var defectKinds = []string{"nearmiss", "twincap", "tamper-wrapped", "didurl", "case", "none", "wrongkey", "tamper", "aud", "resource", "ability", "nonowner", "expired", "tooearly", "algcode", "revoke", "missing", "policy", "decoys", "permute", "nbf-ok", "dup", "parsefail", "deadend"}
 
 func applyDefect(r *rand.Rand, w *AWorld, kind string) {
 	n := len(w.Tokens)
 	ti := r.Intn(n)
 	t := &w.Tokens[ti]
-	b := &wb{r, w}
+	b := &wb{r: r, w: w}
 	switch kind {
 	case "wrongkey":
 		t.Signer = b.keyPrincipal(t.Signer)
@@ -416,6 +433,14 @@ func applyDefect(r *rand.Rand, w *AWorld, kind string) {
 		if len(t.Caps) > 0 {
 			c := &t.Caps[r.Intn(len(t.Caps))]
 			c.With = fmt.Sprintf("@%d", r.Intn(len(w.Principals)))
+		}
+	case "didurl":
+		// the same DID followed by a fragment, path or query, or with its scheme in upper case: other resources
+		if len(t.Caps) > 0 {
+			c := &t.Caps[r.Intn(len(t.Caps))]
+			if len(c.With) > 1 && c.With[0] == '@' && !strings.ContainsAny(c.With, "~^#/?!") {
+				c.With += []string{"#key-1", "/private", "?x=1", "#", "!", "/"}[r.Intn(6)]
+			}
 		}
 	case "ability":
 		if len(t.Caps) > 0 {
@@ -566,7 +591,7 @@ func addDeadEnd(r *rand.Rand, w *AWorld) {
 	if len(hosts) == 0 {
 		return
 	}
-	b := &wb{r, w}
+	b := &wb{r: r, w: w}
 	h := hosts[r.Intn(len(hosts))]
 	var real []int
 	for _, p := range w.Tokens[h].Prfs {
@@ -682,7 +707,7 @@ func renumber(w *AWorld) {
 func addDecoys(r *rand.Rand, w *AWorld) {
 	inv := w.Tokens[w.Inv]
 	w.Tokens = w.Tokens[:w.Inv] // invocation was last
-	b := &wb{r, w}
+	b := &wb{r: r, w: w}
 	host := &inv
 	nd := 1 + r.Intn(3)
 	for k := 0; k < nd; k++ {
